@@ -14,10 +14,12 @@ Spec == Init /\ [][Next]_vars
 AscSeq(S) == IF 0 \in S THEN <<0, Lanes>> ELSE <<CHOOSE x \in S : TRUE>>
 UnitExp(a, b) == (((a + 2 * b) % 3) - 1) * 10            \* unit exponent e in {-10, 0, 10}
 Emit == stage = 2 =>
+        Assert(NearDuplicateFact(VecA(n1, n2)), "near duplicates are one unit apart") /\
         LET a == VecA(n1, n2)  b == VecB(n1, n2)  k == KOf(n1, n2)  ka == Scale(a, k)  nka == Scale(a, -k) IN
         PrintT(<<"REPLAY", ToJson([kind |-> "feat", n1 |-> n1, n2 |-> n2, e |-> UnitExp(n1, n2), k |-> k,
                  pa |-> Pack(a), pb |-> Pack(b), la |-> AscSeq(PackedLens(n1)), lb |-> AscSeq(PackedLens(n2)),
                  q |-> IF n1 = 0 \/ n2 = 0 THEN <<>>
                        ELSE << Query("a", "b", a, b), Query("b", "a", b, a), Query("a", "a", a, a), Query("b", "b", b, b),
-                               Query("ka", "a", ka, a), Query("nka", "a", nka, a), Query("ka", "b", ka, b), Query("b", "nka", b, nka) >>])>>)
+                               Query("ka", "a", ka, a), Query("nka", "a", nka, a), Query("ka", "b", ka, b), Query("b", "nka", b, nka),
+                               QueryE("fa", "fa1", Off(a), Off1(a)), QueryE("fa1", "fa", Off1(a), Off(a)), QueryE("fa", "fa", Off(a), Off(a)) >>])>>)
 =============================================================================
